@@ -15,7 +15,7 @@ func resetInmem() { inmem.VerifReset() }
 
 func init() {
 	checks["C17"] = func(rep *Report, tier string, seed int64) {
-		rep.Rule = "(a) sequential differential: seeded random sequences of all commands (multi-key and quiet gets, 6-key alphabet, TTLs from {0, small, large relative, 30 days -1/0/+1, absolute future, absolute past, absolute far future}) through the real server over text and binary on L1-only stacks whose L1 is the in-memory backend (with and without the locking wrapper); every reply is judged by the single-map specification and compared byte for byte with the Lean model (inmem handler over the reference map); directed cases: add on an existing key, delete / touch / replace / append of a missing key, an entry stored with an expiry in the past; (b) concurrent use of the ONE shared instance by 2..32 goroutines through the handler interface (built with the race detector): each goroutine owns a private key set on which its own results must equal the sequential expectation, and all of them also read and write shared and missing keys; a data race report or a fatal runtime error fails the check; distinct = distinct sequences in which a reply carried a value + distinct (goroutines, round) pairs"
+		rep.Rule = "(a) sequential differential: seeded random sequences of all commands (multi-key and quiet gets, 6-key alphabet, TTLs from {0, small, large relative, 30 days -1/0/+1, absolute future, absolute past, absolute far future}) through the real server over text and binary on L1-only stacks whose L1 is the in-memory backend (with and without the locking wrapper); every reply is judged by the single-map specification and compared byte for byte with the Lean model (inmem handler over the reference map); directed cases: add on an existing key, delete / touch / replace / append of a missing key, an entry stored with an expiry in the past; (b) concurrent use of the ONE shared instance by 2..32 goroutines through the handler interface (built with the race detector): each goroutine owns a private key set on which its own results must equal the sequential expectation, and all of them also read and write shared and missing keys; a data race report or a fatal runtime error fails the check; distinct = distinct sequences in which a reply carried a value + distinct (goroutines, round) pairs; (c) atomicity of the conditional commands on the shared backend: 8 goroutines released together add the same absent key (exactly one is told 'stored' and its value is held), then delete it (exactly one is told 'deleted'), 4000 rounds (thorough 40000)"
 		// (a)
 		d := StartDriver()
 		distinct := map[string]bool{}
@@ -194,6 +194,82 @@ func init() {
 				rep.Violations = append(rep.Violations, Violation{What: "concurrent use of the shared in-memory backend: " + e, Signature: "inmem-concurrent",
 					Replay: map[string]interface{}{"goroutines": n, "round": round, "seed": seed}})
 			}
+		}
+		// atomicity of the conditional commands: of several connections adding the SAME absent key at the
+		// same moment exactly one is told "stored" and its value is the one held afterwards; of several
+		// deleting the same present key exactly one is told "deleted"
+		{
+			inmem.VerifReset()
+			hnd, err := inmem.New()
+			must(err)
+			rounds := 4000
+			if tier == "thorough" {
+				rounds = 40000
+			}
+			const n = 8
+			for round := 0; round < rounds; round++ {
+				key := []byte(fmt.Sprintf("once-%d", round))
+				var start, wg sync.WaitGroup
+				start.Add(1)
+				won := make([]bool, n)
+				for gi := 0; gi < n; gi++ {
+					wg.Add(1)
+					go func(gi int) {
+						defer wg.Done()
+						start.Wait()
+						won[gi] = hnd.Add(common.SetRequest{Key: key, Data: []byte{byte('A' + gi)}, Flags: uint32(gi)}) == nil
+					}(gi)
+				}
+				start.Done()
+				wg.Wait()
+				winners, who := 0, -1
+				for gi, w := range won {
+					if w {
+						winners++
+						who = gi
+					}
+				}
+				held := ""
+				rc, ec := hnd.Get(common.GetRequest{Keys: [][]byte{key}, Opaques: []uint32{1}, Quiet: []bool{false}})
+				for res := range rc {
+					if !res.Miss {
+						held = string(res.Data)
+					}
+				}
+				for range ec {
+				}
+				if winners != 1 || held != string([]byte{byte('A' + who)}) {
+					rep.Violations = append(rep.Violations, Violation{What: fmt.Sprintf("%d connections add the same absent key at once: %d were told it was stored, the backend holds %q (round %d)", n, winners, held, round),
+						Signature: "inmem-add-not-atomic", Replay: map[string]interface{}{"goroutines": n, "round": round, "stored_reported_by": winners, "held": held}})
+					break
+				}
+				// the mirror image: one delete wins
+				start.Add(1)
+				deleted := make([]bool, n)
+				for gi := 0; gi < n; gi++ {
+					wg.Add(1)
+					go func(gi int) {
+						defer wg.Done()
+						start.Wait()
+						deleted[gi] = hnd.Delete(common.DeleteRequest{Key: key}) == nil
+					}(gi)
+				}
+				start.Done()
+				wg.Wait()
+				dels := 0
+				for _, w := range deleted {
+					if w {
+						dels++
+					}
+				}
+				if dels != 1 {
+					rep.Violations = append(rep.Violations, Violation{What: fmt.Sprintf("%d connections delete the same present key at once: %d were told it was deleted (round %d)", n, dels, round),
+						Signature: "inmem-delete-not-atomic", Replay: map[string]interface{}{"goroutines": n, "round": round, "deleted_reported_by": dels}})
+					break
+				}
+			}
+			rep.Evaluations += rounds
+			rep.Distribution["same-key-add-delete-rounds"] = rounds
 		}
 		inmem.VerifReset()
 		rep.Distinct = len(distinct)
